@@ -12,15 +12,19 @@ def run(tier):
     q = ctx.quick
     builds = ["prod-avx2", "asan-avx2", "prod-sse"] if q else \
         ["prod-avx2", "asan-avx2", "prod-sse", "asan-sse", "prod-dyn", "asan-dyn"]
-    pads = [0, 1, 31, 33, 63, 64] if q else list(range(0, 71))
+    pads = [0, 1, 31, 33, 63, 64] if q else sorted(set(range(0, 9)) | {15, 16, 17, 31, 32, 33, 34, 47, 48, 49, 63, 64, 65, 66, 70})
     F = T.fmtset
     plans = [dict(MaxNodes=3 if q else 4, Pool=3, Layouts=F([0, 2]), Wide="FALSE", D=2 if q else 3),
              dict(MaxNodes=4 if q else 5, Pool=0, Layouts=F([0, 3] if q else [0, 1, 3, 4]), Wide="FALSE", D=2),
              dict(MaxNodes=1, Pool=0, Layouts=F([0, 3, 4]), Wide="TRUE", D=2),
              dict(MaxNodes=2, Pool=2, Layouts=F([0, 1]), Wide="FALSE", D=2)]
+    # design level: the scanner's I-model against Lookup (Equiv) and the input bounds (InBounds); drift replay
+    O.mc_skipscan(ctx, builds[:2])
     total = 0
     for i, pl in enumerate(plans):
-        recs = O.gen_od(ctx, pl, f"Gen_OnDemand_{i}")
+        # (the scanner model is evaluated on every case except the wide containers with 65-blank runs, where the recursive
+        # TLA+ definitions take minutes)
+        recs = O.gen_od(ctx, pl, f"Gen_OnDemand_{i}", equiv=(pl["Wide"] == "FALSE"))
         rows = O.rows_c10(recs)
         fails, _ = O.replay_od(ctx, "c10", rows, builds, pads, name=f"od{i}")
         O.record(ctx, rows, fails, OWN, f"ondemand{i}")
@@ -37,7 +41,7 @@ def run(tier):
     recs = ctx.tlc_emit("Gen_OnDemandStr", cfg=cfg, timeout=1500, xmx="8g")
     ctx.log(f"Gen_OnDemandStr: {len(recs)} (text, path) cases with specials at block offsets, {sum(1 for r in recs if r['found'])} resolving")
     rows = O.rows_c10(recs)
-    spads = [0, 1, 2, 3, 5, 8, 13, 21, 27, 31] if q else list(range(0, 64))
+    spads = [0, 1, 2, 3, 5, 8, 13, 21, 27, 31] if q else list(range(0, 34, 1))
     fails, _ = O.replay_od(ctx, "c10", rows, builds, spads, name="odstr")
     O.record(ctx, rows, fails, OWN, "ondemand-strings")
     total += len(rows)
